@@ -82,6 +82,20 @@ def main():
                     os._exit(77)
         sys.addaudithook(hook)
 
+    if trial.get("sched_fds"):
+        # concurrent pair: park before every mutating file-system event until the scheduler says go
+        ready_w, go_r = trial["sched_fds"]
+
+        def park(event, args):
+            if event in ("os.mkdir", "os.remove", "os.rmdir", "shutil.copyfile", "shutil.rmtree", "os.rename", "os.symlink", "os.chmod") or \
+                    (event == "open" and not isinstance(args[0], int) and args[2] is not None and (args[2] & (os.O_WRONLY | os.O_RDWR | os.O_CREAT))):
+                try:
+                    os.write(ready_w, b"r")
+                    os.read(go_r, 1)
+                except OSError:
+                    pass
+        sys.addaudithook(park)
+
     status, detail = "ok", ""
     try:
         M.Lian().run()
@@ -99,6 +113,14 @@ def main():
         pass
     os.dup2(saved[0], 1)
     os.dup2(saved[1], 2)
+
+    if trial.get("sched_fds"):
+        # the analysis is over: tell the scheduler this process is gone (what follows is the harness's own bookkeeping)
+        for fd_ in trial["sched_fds"]:
+            try:
+                os.close(fd_)
+            except OSError:
+                pass
 
     masks = [(a, b) for a, b in trial.get("mask", [])]
 
